@@ -1224,49 +1224,49 @@ def _k_neg_rewind(vio):
 
 
 LOCAL_KNOWN = [
-    ("F72-forth-negative-repeat-count", _k_negative_count,
+    ("FF72-forth-negative-repeat-count", _k_negative_count,
      "AwkwardForth repeated read `n x #T-> ...` with a negative count n moves the input position backwards "
      "without a bounds check (ForthInputBuffer::read only tests the upper end): later reads run before the "
      "buffer (heap-buffer-overflow READ) / input position negative"),
-    ("F73-forth-min-int-div-minus-one", _k_min_div,
+    ("FF73-forth-min-int-div-minus-one", _k_min_div,
      "AwkwardForth `/`, `mod`, `/mod` of the minimum integer by -1 (e.g. `1 63 lshift -1 /`, 32-bit machine "
      "`1 31 lshift -1 /`) executes the hardware division: SIGFPE kills the process instead of wrapping"),
-    ("F74-forth-step-at-end-of-do-body", _k_step_do,
+    ("FF74-forth-step-at-end-of-do-body", _k_step_do,
      "ForthMachine::step() that executes the last instruction of a `do .. loop` body pops the body but never "
      "increments the loop index (only run/resume and `pause` do): single-stepping a do-loop repeats the first "
      "iteration forever, so results depend on the segmentation"),
-    ("F75-forth-exit-discards-callers-do-loop", _k_exit_loop,
+    ("FF75-forth-exit-discards-callers-do-loop", _k_exit_loop,
      "`exit` cleans the do-loop stack with `depth != current` instead of `depth >= current`: it discards the loops "
      "of the *callers* (`: f exit ; 3 0 do 7 f loop` gives 7 7; a later `i` reads before the loop stack) and keeps "
      "the loops of the word it leaves (a stale loop then re-interprets the next word entered at that depth: "
      "garbage bytecodes, heap-buffer-overflow READ in internal_run)"),
-    ("F76-forth-machine64-pushes-through-int32", _k_wide_push,
+    ("FF76-forth-machine64-pushes-through-int32", _k_wide_push,
      "ForthMachine64 pushes typed reads (q Q n N I f d -> stack) and loop indices i j k through a cast to the 32-bit "
      "bytecode type I instead of the stack type T: `x q-> stack` of 2**32 gives 0, `x I-> stack` of 0xffffffff "
      "gives -1"),
-    ("F77-forth-abs-is-int-abs", _k_abs64,
+    ("FF77-forth-abs-is-int-abs", _k_abs64,
      "`abs` on ForthMachine64 calls the C int abs(int): values beyond 32 bits are truncated (`1 40 lshift abs` "
      "gives 0)"),
-    ("F78-forth-nbit-32-or-more", _k_nbit,
+    ("FF78-forth-nbit-32-or-more", _k_nbit,
      "`Nbit->` with N >= 32 (accepted up to 64) computes its mask as `(1 << N) - 1` in 32-bit int arithmetic and "
      "keeps a 64-bit window: `x 32bit-> stack` always gives 0"),
-    ("F79-forth-zigzag-direct-through-stack-type", _k_zigzag,
+    ("FF79-forth-zigzag-direct-through-stack-type", _k_zigzag,
      "ForthMachine32 `zigzag-> output` casts the decoded value to the 32-bit stack type before writing it to a "
      "64-bit or floating-point output"),
-    ("F81-forth-call-ignores-recursion-limit", _k_call_limit,
+    ("FF81-forth-call-ignores-recursion-limit", _k_call_limit,
      "ForthMachine::call(word) pushes the word's segment without testing recursion_max_depth: with the machine "
      "paused at the limit (recursion_max_depth=1 and a paused program) it writes past current_which_/current_where_ "
      "(heap-buffer-overflow WRITE) instead of returning recursion_depth_exceeded"),
-    ("F82-forth-float-byteswap-strict-aliasing", _k_float_swap,
+    ("FF82-forth-float-byteswap-strict-aliasing", _k_float_swap,
      "`!f->`/`!d->` (one item) directly to an output: write_one_float32/64 swap the float/double local through a "
      "uint32_t*/uint64_t* (strict-aliasing UB); clang drops the swap, the value is written in the wrong byte order"),
-    ("F83-forth-modulo-large-divisor", _k_mod_overflow,
+    ("FF83-forth-modulo-large-divisor", _k_mod_overflow,
      "`mod` and `/mod` compute (b + a % b) % b: the sum overflows when the divisor is near the type's limits "
      "(`16 2147483647 mod` gives -2147483633 on ForthMachine32)"),
-    ("F84-forth-step-on-exit", _k_step_exit,
+    ("FF84-forth-step-on-exit", _k_step_exit,
      "ForthMachine::step() that executes `exit` unwinds the enclosing control structures but does not leave the "
      "word (or the program): single-stepping continues after the `if .. then` that contains the exit"),
-    ("F80-forth-negative-rewind", _k_neg_rewind,
+    ("FF80-forth-negative-rewind", _k_neg_rewind,
      "`n out rewind` with negative n extends the output's length past its reservation without allocating: the "
      "output exposes uninitialised / out-of-bounds memory"),
 ]
@@ -1320,27 +1320,6 @@ def signature(vio):
     return "%s[%s|%s|%s|%s]" % (vio["kind"], det.get("bits") if isinstance(det, dict) else "", parts, sched, ev[:60])
 
 
-def _install_local_known():
-    """Until the entries of LOCAL_KNOWN are merged into /verif/known_findings.json the runner would not know them
-    (it only suppresses mechanisms listed there): present them to the runner as additional status=known entries."""
-    from vlib import runner
-    if getattr(runner, "_c19_patched", False):
-        return
-    orig = runner.load_known
-
-    def load_known():
-        findings = list(orig())
-        have = set(k.get("mechanism") for k in findings)
-        for name, _pred, desc in LOCAL_KNOWN:
-            if name not in have:
-                findings.append({"mechanism": name, "properties": ["C19", "C12"], "status": "known",
-                                 "description": desc})
-        return findings
-    runner.load_known = load_known
-    runner._c19_patched = True
-
-
 if __name__ == "__main__":
     from vlib import runner
-    _install_local_known()
     sys.exit(runner.main(sys.modules[__name__]))
